@@ -10,6 +10,7 @@ from fractions import Fraction
 import z3
 
 from pyvc import floatsets as FS, ops
+from pyvc.paths import NeedFork
 from pyvc.registry import Contract
 from pyvc.values import Opaque, SymObj, SymSeq, Unsupported, to_z3
 
@@ -25,14 +26,15 @@ TRUSTED = [
     "pulser validates evaluation times to lie in [0, 1]; sequence.get_duration(...) > 0; "
     "domain: dt > 2e-10 * duration (fewer than 5e9 steps)",
     "`s |= t` on a local set that has no alias is `s = s | t`",
+    "a local list built by appends in a loop is modelled by its length, its last element and the set of its "
+    "elements (`not xs`, `xs[-1]`, `xs.append(t)`, `set(xs)`; contracts/timegrid.py: KeptList); universally "
+    "quantified loop invariants about its members are instantiated at the terms the obligations name",
     "_get_target_times sees the result of _unique_observable_times only as 'a set of requested times in "
     "[0, 1]' (its own contract is verified separately)",
 ]
 NOT_DECIDED_C21 = [
     "floating-point rounding inside _get_target_times (proved over the reals; the overshoot of the pinned "
     "tree, (i*dt/D)*D > D, is demonstrated by the native replay and the bounded float side check only)",
-    "requested evaluation times that are distinct but closer than the matcher tolerance 1e-10 to each other "
-    "(the separation clause is proved under the hypothesis that distinct requests differ by more than it)",
     "'each noise trajectory is simulated as many times as Pulser requests' is C34 (get_sequences)",
 ]
 BOUNDED_C21 = [
@@ -57,7 +59,17 @@ NOT_DECIDED_C14 = [
     "MPSBackendImpl.progress / sweep_complete and the noisy / DMRG variants (that timestep_complete is called "
     "exactly when the sweep has brought the state to target_time: the precondition of timestep_complete here) -- "
     "the quantum-jump root finding moves target_time between target times and is not under contract",
-    "requested evaluation times that are distinct but within 1e-10 of each other (see C21); pulser itself "
+    "separation (exactly one target time per requested time e) is proved under H(e): the requested times and grid "
+    "times (multiples of dt, the duration) within the tolerance 1e-10 of e are within the tolerance of ONE ANOTHER "
+    "-- this covers requests within the tolerance of each other (merged: one target time serves them all) and holds "
+    "whenever any two requested/grid times are within the tolerance of each other or more than twice the tolerance "
+    "apart.  EXCLUDED residual regime: a request e in a chain p ~ e ~ p' (p, p' requested or grid times within the "
+    "tolerance of e) with |p - p'| in (tol, 2 tol]; no grid made of requested times can serve such chains exactly "
+    "once in general and none is attempted.  The repaired code does NOT record exactly once there (native, "
+    "`replay/c14.py --residual`, both backends): duration 1000, dt 7, three observables at 0.3, 0.3+0.8e-10, "
+    "0.3+1.6e-10 -> target times 300 and 300.00000016, the middle observable is stored twice; duration 1000, dt 10, "
+    "observables at 0.3+0.5e-10 (on the grid time 300) and 0.3+1.2e-10 -> the first is stored twice (at 300 and at "
+    "300.00000012).  Every request is still recorded at least once there (coverage is unconditional).  pulser itself "
     "rejects times closer than 1e-12 within one observable",
     "that the value stored is numerically the observable of the state (C15/C16 territory)",
     "floating-point rounding of target_times[k] / target_times[-1] in the matcher (reals here; the bounded "
@@ -65,12 +77,15 @@ NOT_DECIDED_C14 = [
 ]
 BOUNDED_C14 = [
     "fp/one-target-time-per-requested-time: concrete IEEE-double execution of _get_target_times on ~1250 "
-    "(duration, dt) pairs with numpy.linspace(0,1,101) / thirds as requested times",
+    "(duration, dt) pairs with numpy.linspace(0,1,101) / thirds as requested times, plus 9 inputs with requested "
+    "times within the tolerance of each other (0.3 and 0.1+0.2; 0.45 and 0.45+5e-11; 0.6, +4e-11, +9e-11)",
 ]
 EXPLANATION_C14 = (
     "C14 is assembled from (a) _get_target_times: every requested time is matched by a target time, nothing "
     "but grid points and requested times is in the grid, and no two target times match one requested time "
-    "(separation); (b) the backends' protocol, verified with monitors (ghost counters on the implementation "
+    "(separation, also for requested times within the tolerance of each other: the de-duplication loop is verified "
+    "with invariants -- kept times are off-grid requested times, more than the tolerance apart, and every off-grid "
+    "requested time is within the tolerance above a kept one); (b) the backends' protocol, verified with monitors (ghost counters on the implementation "
     "object checked at every call of the stepper and of an observable): len(target_times)-1 solver steps, each "
     "over [t_k, t_k+1] from the current state with the drives of step k; observables applied at index 0 before "
     "the first step and after step k at t_{k+1}/t_last on the state produced by that step, each target index "
@@ -80,7 +95,10 @@ EXPLANATION_C21 = (
     "_get_target_times is executed symbolically on a duration D > 0, a step dt > 2e-10*D and an arbitrary set "
     "of requested times in [0,1]; the result list is characterised by the trusted specification of sorted(). "
     "Clause 'contains every requested time' is stated up to the matcher tolerance: together with 'contains every "
-    "multiple of dt' and separation it is unsatisfiable exactly (a request within 1e-10 of a grid point).")
+    "multiple of dt' and separation it is unsatisfiable exactly (a request within 1e-10 of a grid point).  It holds "
+    "for EVERY set of requested times, also for requests within the tolerance of each other, which the "
+    "de-duplication loop merges (loop invariant: every off-grid requested time seen so far is within the tolerance "
+    "above a kept one); the exactly-once side is C14's separation clause (excluded regime stated there).")
 
 
 def extra_targets(reg, prop):
@@ -115,6 +133,11 @@ def stmt_match_abs(y, e, D):
     return D > 0, (_absz(y / D - e) <= TOLZ) == z3.And(y - e * D <= TOLZ * D, e * D - y <= TOLZ * D)
 
 
+def stmt_scale_close(x, e, D):
+    """being within the tolerance scales with the duration: |x - e| <= tol  <=>  |x*D - e*D| <= tol*D"""
+    return D > 0, (_absz(x - e) <= TOLZ) == z3.And(x * D - e * D <= TOLZ * D, e * D - x * D <= TOLZ * D)
+
+
 def stmt_int_gap(i, j, dt):
     """distinct integer multiples of dt > 0 are at least dt apart"""
     ri, rj = z3.ToReal(i), z3.ToReal(j)
@@ -134,12 +157,258 @@ def _lemma(stmt, names):
 LEMMAS = [("scale_unit", _lemma(stmt_scale_unit, ("e", "D"))),
           ("scale_gap", _lemma(stmt_scale_gap, ("e", "x", "D"))),
           ("match_abs", _lemma(stmt_match_abs, ("y", "e", "D"))),
+          ("scale_close", _lemma(stmt_scale_close, ("x", "e", "D"))),
           ("int_gap", _lemma(stmt_int_gap, ("int:i", "int:j", "dt")))]
 
 
 def _use(I, stmt, *args):
     hyp, concl = stmt(*args)
     I.ctx.assume(z3.Implies(hyp, concl))
+
+
+# ---------------------------------------------------------------------------------------------
+# the de-duplication loop of _get_target_times:
+#     extra_times = []
+#     for t in off_grid:                       # sorted off-grid requested times
+#         if not extra_times or t - extra_times[-1] > tolerance:
+#             extra_times.append(t)
+# `extra_times` is a KeptList: its length n, its last element and the SET of its elements (an
+# uninterpreted predicate K for the state at the loop head, plus what has been appended since).
+# The loop invariants are universally quantified statements about the members of K; a statement is
+# represented by its value at fresh witnesses (goal: Skolem constants; hypothesis: a counterexample
+# if there is one -- Hilbert choice, cf. `universal`) and, when it speaks of the loop-head state, is
+# instantiated at every term K is applied to (AbsPred axioms hook) -- quantifier-free throughout.
+# ---------------------------------------------------------------------------------------------
+class KeptList:
+    def __init__(self, I, name):
+        ctx = I.ctx
+        self.name = name
+        self.n = ctx.fresh(name + ".len", "int")
+        ctx.assume(self.n >= 0)
+        self.last = ctx.fresh(name + ".last", "real")
+        self.terms: dict = {}
+        self.unary: list = []
+        self.binary: list = []
+        self.covers: list = []
+        self.origin = None                  # the sorted list the loop runs over
+        self.pred = FS.AbsPred(I, name, axioms=self._on_term)
+        self.pred.kept = self
+        self.set = FS.FloatSet(I, [FS.AbsComp(self.pred)])
+        FS.lazy(I, "loop invariants over the members of a list built by appends")
+
+    # -- the interpreter's view ------------------------------------------------------------------
+    @property
+    def length(self):
+        return self.n
+
+    def truth(self, I):
+        return self.n > 0
+
+    def getitem(self, I, idx):
+        if not (isinstance(idx, int) and idx == -1):
+            raise Unsupported("only [-1] is read from the list of kept times")
+        if I.ctx.speculative:
+            raise NeedFork()
+        if not I.ctx.branch(self.n > 0):
+            from pyvc.interp import RaiseSig
+            raise RaiseSig("IndexError", "list index out of range", I.ctx.cur_line)
+        return self.last
+
+    def call_method(self, I, name, args, kwargs):
+        if name != "append" or len(args) != 1 or kwargs:
+            raise Unsupported(f"list method .{name}() on the list of kept times")
+        if I.ctx.speculative:
+            raise NeedFork()
+        x = FS._real(args[0])
+        self.set.comps = self.set.comps + [FS.Single(x)]
+        self.set.version += 1
+        self.set.note_term(I, x)
+        self.n = self.n + 1
+        self.last = x
+        return None
+
+    def as_set(self, I):
+        return self.set.copy(I)
+
+    def havoc(self, I, name):
+        return KeptList(I, name)
+
+    # -- members and statements about all members -------------------------------------------------
+    def pure(self):
+        """the loop-head state: nothing appended since the havoc (only then a statement is a hypothesis)"""
+        return len(self.set.comps) == 1
+
+    def _on_term(self, I, x):
+        self.note(I, x)
+        return []
+
+    def note(self, I, x):
+        x = FS._real(x)
+        key = FS._key(x)
+        if key in self.terms:
+            return
+        others = list(self.terms.values())
+        self.terms[key] = x
+        for phi, schema in list(self.unary):
+            I.ctx.assume(z3.Implies(phi, schema(x)))
+        for phi, schema in list(self.binary):
+            I.ctx.assume(z3.Implies(phi, schema(x, x)))
+            for y in others:
+                I.ctx.assume(z3.Implies(phi, z3.And(schema(x, y), schema(y, x))))
+
+    def forall(self, I, arity, schema):
+        ws = [I.ctx.fresh("kept", "real") for _ in range(arity)]
+        phi = to_z3(schema(*ws))
+        for w in ws:
+            self.note(I, w)
+        if self.pure():
+            terms = list(self.terms.values())
+            if arity == 1:
+                self.unary.append((phi, schema))
+                for x in terms:
+                    I.ctx.assume(z3.Implies(phi, schema(x)))
+            else:
+                self.binary.append((phi, schema))
+                for x in terms:
+                    for y in terms:
+                        I.ctx.assume(z3.Implies(phi, schema(x, y)))
+        return phi
+
+
+def _kept_state(I, kept):
+    """(membership test, length, last) of the list as it is now (a snapshot: the list is mutated later)"""
+    if isinstance(kept, list):
+        if kept:
+            raise Unsupported("a non-empty concrete list of kept times")
+        return None
+    if not isinstance(kept, KeptList):
+        raise Unsupported("the kept times are not the list built by the de-duplication loop")
+    comps = list(kept.set.comps)
+
+    def mem(x):
+        return to_z3(ops.b_or(*[c.member(I, x) for c in comps]))
+    return mem, kept.n, kept.last
+
+
+def _off(off):
+    if not isinstance(off, FS.SortedSeq):
+        raise Unsupported("the de-duplication loop does not run over the sorted() of a set of floats")
+    return off
+
+
+def kept_from(I, kept, off, k):
+    """invariant: every kept time is one of the first k times of the sorted list `off`"""
+    st = _kept_state(I, kept)
+    if st is None:
+        return True
+    mem, _, _ = st
+    off = _off(off)
+    kept.origin = off
+    kz = to_z3(k)
+
+    def schema(y):
+        r = off.rank(y)
+        g = I.ctx.ghost
+        g["fs_depth"] = g.get("fs_depth", 0) + 1      # (the set's filter stays folded for these instances)
+        try:
+            off._read(I, r)
+        finally:
+            g["fs_depth"] -= 1
+        return z3.Implies(mem(y), z3.And(r >= 0, r < kz, off.T(r) == y))
+    return kept.forall(I, 1, schema)
+
+
+def kept_last(I, kept):
+    """invariant: a non-empty list's last element is a member, and the greatest one"""
+    st = _kept_state(I, kept)
+    if st is None:
+        return True
+    mem, n, last = st
+
+    def schema(y):
+        return z3.Implies(mem(y), z3.And(n > 0, y <= last))
+    phi = kept.forall(I, 1, schema)
+    kept.note(I, last)
+    return z3.And(z3.Implies(n > 0, mem(last)), phi)
+
+
+def kept_apart(I, kept):
+    """invariant: two distinct kept times are more than the tolerance apart"""
+    st = _kept_state(I, kept)
+    if st is None:
+        return True
+    mem, _, _ = st
+    D = _g(I)["D"]
+
+    def schema(y, z):
+        return z3.Implies(z3.And(mem(y), mem(z), y < z), z - y > TOLZ * D)
+    return kept.forall(I, 2, schema)
+
+
+def kept_covers(I, kept, off, k):
+    """invariant: each of the first k times of `off` lies within the tolerance above (or at) a kept time.
+    forall j < k exists y: truth value phi with  phi ==> P(j, W(j)) for a witness function W (instances: the
+    index terms named by the other statements / the clauses) and  not phi ==> not P(j0, c) for a fresh j0 < k
+    and the candidate witnesses c (the other statements' witnesses at j0, the last element)."""
+    off = _off(off)
+    kz = to_z3(k)
+    if _kept_state(I, kept) is None:
+        return kz <= 0
+    mem, n, last = _kept_state(I, kept)
+    ctx = I.ctx
+    D = _g(I)["D"]
+    phi = ctx.fresh("covered", "bool")
+    W = z3.Function(ctx.fresh_name("kept_below"), z3.IntSort(), z3.RealSort())
+    j0 = ctx.fresh("j", "int")
+
+    def P(j, y):
+        off._read(I, j, derived=True)
+        return z3.And(mem(y), off.T(j) >= y, off.T(j) - y <= TOLZ * D)
+
+    def inst(j):
+        j = to_z3(j)
+        return z3.Implies(z3.And(phi, j >= 0, j < kz), P(j, W(j)))
+    cands = [last]
+    for _, inst2, W2, j2 in kept.covers:
+        cands.append(W2(j0))
+        ctx.assume(inst2(j0))
+        ctx.assume(inst(j2))
+    for c in kept.set.comps:
+        if isinstance(c, FS.Single):
+            cands.append(to_z3(c.value))
+    ctx.assume(z3.Implies(z3.Not(phi), z3.And(j0 >= 0, j0 < kz, *[z3.Not(P(j0, c)) for c in cands])))
+    kept.covers.append((phi, inst, W, j0))
+    return phi
+
+
+def _kept_comps(T):
+    """the components of the result's set that are lists built by the de-duplication loop"""
+    out = []
+    for c in T.source.comps:
+        kept = getattr(getattr(c, "pred", None), "kept", None)
+        if isinstance(c, FS.AbsComp) and kept is not None:
+            if kept.origin is None:
+                raise Unsupported("the loop invariant kept_from(...) of the de-duplication loop is missing")
+            out.append(kept)
+    return out
+
+
+def _requested_preimages(I, kept, y, E, unfold=True):
+    """y is a kept time  ==>  y == off[r] == q * D for a requested time q that is off the grid (instances of
+    the invariant kept_from and of sorted()'s 'every element is a member'): the candidate terms q"""
+    off = kept.origin
+    kept.note(I, y)
+    r = off.rank(y)
+    g = I.ctx.ghost
+    depth = g.get("fs_depth", 0)
+    g["fs_depth"] = 0 if unfold else depth + 1
+    try:
+        off._read(I, r)
+        off.source.member(I, off.T(r), note=False)
+    finally:
+        g["fs_depth"] = depth
+    return [c.pre(off.T(r)) for c in off.source.comps
+            if isinstance(c, FS.AbsComp) and c.pre is not None and c.pred is E]
 
 
 # ---------------------------------------------------------------------------------------------
@@ -169,6 +438,15 @@ def every_requested_matched(I, T):
     T.source.member(I, v, note=True)
     pos = T.bisect_left(I, v)
     hi, lo = T.fn(pos), T.fn(pos - 1)
+    # times that went through the de-duplication loop: e*D is on the grid or one of the sorted off-grid times,
+    # off[r]; the loop's invariant kept_covers at r names the kept time just below it (a member of the result)
+    for kept in _kept_comps(T):
+        off = kept.origin
+        off.source.member(I, v, note=True)
+        r = off.rank(v)
+        for _, inst, W, _ in kept.covers:
+            I.ctx.assume(inst(r))
+            T.source.member(I, W(r), note=True)
     matched = z3.Or(z3.And(pos < T.length, hi - v <= TOLZ * D), z3.And(pos > 0, v - lo <= TOLZ * D))
     return z3.Implies(E.P(e), matched)
 
@@ -194,16 +472,30 @@ def only_grid_or_requested(I, T):
         elif isinstance(c, FS.Single):
             v = to_z3(c.value)
             alts.append(z3.And(y == v, v == D))
+    for kept in _kept_comps(T):
+        # a time kept by the de-duplication loop is one of the off-grid requested times (invariant kept_from)
+        for q in _requested_preimages(I, kept, y, E, unfold=False):
+            alts.append(z3.And(E.P(q), y == q * D))
     return z3.Implies(T.inrange(k), z3.Or(*alts))
 
 
 def separated(I, T):
-    """two distinct target times never match the same requested evaluation time (matcher of the
-    backends: |t/D - e| <= 1e-10), provided distinct requested times differ by more than that
-    tolerance (two requests within the tolerance are one request to the matcher)."""
+    """No requested evaluation time e is matched by two distinct target times (matcher of the backends:
+    |t/D - e| <= 1e-10) -- also when other requested times lie within the tolerance of e (they are the same
+    request to the matcher) -- provided the neighbourhood of e is consistent for a tolerance matcher:
+
+        H(e): the requested times and the grid times (multiples of dt, the duration) that lie within the
+              tolerance of e lie within the tolerance of ONE ANOTHER.
+
+    H(e) holds in particular when any two of the requested / grid times are either within the tolerance of
+    each other or more than twice the tolerance apart (then 'within the tolerance' is transitive).  It fails
+    exactly when e sits in a chain  p ~ e ~ p'  with |p - p'| > tolerance: no subset of the requested times
+    can then serve p, e and p' exactly once each in general (NOT_DECIDED_C14).
+    The universally quantified H(e) is used at the pre-images of the two target times (its only relevant
+    instances: the two target times are requested or grid times and both match e)."""
     T = _sorted_result(T)
     g = _g(I)
-    E, D = g["E"], g["D"]
+    E, D, dt = g["E"], g["D"], g["dt"]
     ctx = I.ctx
     e = ctx.fresh("requested", "real")
     a, b = ctx.fresh("a", "int"), ctx.fresh("b", "int")
@@ -212,22 +504,43 @@ def separated(I, T):
     I.saw_index(b)
     ya, yb = T.fn(a), T.fn(b)
     T.source.member(I, e * D, note=True)
+    kepts = _kept_comps(T)
+    # what a target time y can be: a grid time, or q * D for a requested time q (candidates q)
+    ys, is_grid, reqs, js = (ya, yb), [], [], []
+    for y in ys:
+        alts, qs = [], []
+        for c in T.source.comps:
+            if isinstance(c, FS.RangeComp) and c.idx is not None:
+                j = c.idx(y)
+                js.append(j)
+                alts.append(z3.And(j >= 0, y == z3.ToReal(j) * dt))
+            elif isinstance(c, FS.Single):
+                alts.append(z3.And(y == to_z3(c.value), to_z3(c.value) == D))
+            elif isinstance(c, FS.AbsComp) and c.pre is not None and c.pred is E:
+                qs.append(c.pre(y))
+        for kept in kepts:
+            qs += _requested_preimages(I, kept, y, E, unfold=True)
+        is_grid.append(z3.Or(*alts))
+        reqs.append(qs)
+    near = lambda x: z3.And(E.P(x), _absz(x - e) <= TOLZ)
     pr = []
-    for x in E.all_terms():
-        if x.eq(e):
-            continue
-        pr.append(z3.Implies(z3.And(E.P(x), x != e), _absz(x - e) > TOLZ))
-        _use(I, stmt_scale_gap, e, x, D)
+    for n, m in ((0, 1), (1, 0)):
+        for q in reqs[n]:
+            _use(I, stmt_scale_close, q, e, D)
+            # H(e), two requested times
+            for q2 in reqs[m]:
+                if n == 0:
+                    pr.append(z3.Implies(z3.And(near(q), near(q2)), _absz(q - q2) <= TOLZ))
+                    _use(I, stmt_scale_close, q, q2, D)
+            # H(e), a grid time and a requested time
+            pr.append(z3.Implies(z3.And(is_grid[m], _absz(ys[m] - e * D) <= TOLZ * D, near(q)),
+                                 _absz(ys[m] - q * D) <= TOLZ * D))
     for y in (ya, yb):
         _use(I, stmt_match_abs, y, e, D)
     # distinct multiples of dt are at least dt apart (instances for the Skolem indices of ya, yb)
-    js = []
-    for c in T.source.comps:
-        if isinstance(c, FS.RangeComp) and c.idx is not None:
-            js += [c.idx(ya), c.idx(yb)]
     for n, i in enumerate(js):
         for j in js[n + 1:]:
-            _use(I, stmt_int_gap, i, j, g["dt"])
+            _use(I, stmt_int_gap, i, j, dt)
     match = lambda y: _absz(y / D - e) <= TOLZ
     hyp = z3.And(E.P(e), a >= 0, a < b, b < T.length, *pr)
     return z3.Implies(hyp, z3.Not(z3.And(match(ya), match(yb))))
@@ -407,7 +720,9 @@ def register(reg, prop="C21"):
     reg.add_class("Sequence", module=None, fields={})
     reg.add_class("EmulationConfig", module=None, fields={})
     reg.ghost_funcs.update(has=has, every_requested_matched=every_requested_matched,
-                           only_grid_or_requested=only_grid_or_requested, separated=separated)
+                           only_grid_or_requested=only_grid_or_requested, separated=separated,
+                           kept_from=kept_from, kept_last=kept_last, kept_apart=kept_apart,
+                           kept_covers=kept_covers)
     none = lambda I, n: None
     extra = []
     if prop == "C21":
@@ -425,10 +740,25 @@ def register(reg, prop="C21"):
             requires=["dt > 2 * TOL * D"],
             policies={f"{ADAPTER}:_unique_observable_times": requested_set},
             raises={},
+            # the de-duplication loop over the sorted off-grid requested times (each group of clauses carries
+            # the invariants it needs; a tree without the loop simply does not use them)
+            loops={0: dict(invariant=[DEDUPE_INVARIANTS[n] for n in clauses.get("invariants", ("from",))],
+                           locals={"extra_times": lambda I, n: KeptList(I, n)})},
             ensures=[c for _, c in clauses["ensures"]],
             ensures_names=[n for n, _ in clauses["ensures"]],
         ), callsite=False)
 
+
+DEDUPE_INVARIANTS = {
+    # every kept time is one of the off-grid requested times seen so far
+    "from": "kept_from(extra_times, _iter, _k)",
+    # the last element is the greatest kept time
+    "last": "kept_last(extra_times)",
+    # kept times are more than the tolerance apart
+    "apart": "kept_apart(extra_times)",
+    # every off-grid requested time seen so far is within the tolerance above a kept time
+    "covers": "kept_covers(extra_times, _iter, _k)",
+}
 
 TARGET_TIME_CLAUSES = {
     "start": dict(props=("C21",), ensures=[
@@ -455,14 +785,14 @@ TARGET_TIME_CLAUSES = {
         ("contains-multiples-of-dt",
          "forall(lambda i: has(result, i * dt) or D - i * dt <= 2 * TOL * D, 0, N + 1)"),
     ]),
-    "requested": dict(props=("C21", "C14"), ensures=[
+    "requested": dict(props=("C21", "C14"), invariants=("from", "last", "covers"), ensures=[
         # every requested evaluation time is matched by a target time
         ("requested-times-matched", "every_requested_matched(result)"),
     ]),
     "nothing-else": dict(props=("C21", "C14"), ensures=[
         ("only-grid-or-requested", "only_grid_or_requested(result)"),
     ]),
-    "separation": dict(props=("C14",), ensures=[
+    "separation": dict(props=("C14",), invariants=("from", "last", "apart"), ensures=[
         # no requested time is matched by two target times
         ("separation", "separated(result)"),
     ]),
